@@ -242,6 +242,8 @@ pub fn build_page(p: &PageProg) -> Result<Page, String> {
 /// Fixed dates so that files only differ where the writer itself introduces differences.
 pub fn build_document(p: &Prog) -> Result<Document, String> {
     use chrono::TimeZone;
+    // hook H2: hold the clock fixed so that ModDate does not depend on when the case runs
+    oxidize_pdf::verif_clock::set_fixed_clock(Some(1_704_164_645));
     let mut doc = Document::new();
     let t = chrono::Utc.with_ymd_and_hms(2024, 1, 2, 3, 4, 5).unwrap();
     doc.set_creation_date(t);
@@ -351,6 +353,11 @@ pub fn info() -> impl Strategy<Value = Info> {
 
 pub fn prog() -> impl Strategy<Value = Prog> {
     (prop::collection::vec(page_prog(), 1..5), info()).prop_map(|(pages, info)| Prog { pages, info })
+}
+
+/// like `cfg` but with object streams in ~3 % of the cases (for checks that open each file many times)
+pub fn cfg_light() -> impl Strategy<Value = Cfg> {
+    (prop_oneof![16 => Just((false, false)), 12 => Just((true, false)), 1 => Just((true, true))], any::<bool>(), 0u8..4).prop_map(|((x, o), compress, version)| Cfg { xref_streams: x, object_streams: o, compress, version: if x && version == 0 { 1 } else { version } })
 }
 
 pub fn cfg() -> impl Strategy<Value = Cfg> {
